@@ -69,13 +69,13 @@ func c10(c *Ctx) {
 		for _, b := range fn.Blocks {
 			for _, in := range b.Instrs {
 				bo, ok := in.(*ssa.BinOp)
-				if !ok || bo.Op != token.EQL {
+				if !ok || !isEqOrNeq(bo) {
 					continue
 				}
 				for _, pr := range [][2]ssa.Value{{bo.X, bo.Y}, {bo.Y, bo.X}} {
 					if s, ok := cfgx.ConstString(pr[1]); ok && types.Identical(pr[1].Type(), T) {
 						seen[s] = true
-						t, _ := cfgx.CondEdges(bo)
+						t, _ := eqEdges(bo)
 						caseTrue = append(caseTrue, t...)
 						if head == nil || b.Index < head.Index {
 							head = b
@@ -310,10 +310,10 @@ func c10(c *Ctx) {
 		var caseTrue []cfgx.Edge
 		for _, b := range fn.Blocks {
 			for _, in := range b.Instrs {
-				if bo, ok := in.(*ssa.BinOp); ok && bo.Op == token.EQL {
+				if bo, ok := in.(*ssa.BinOp); ok && isEqOrNeq(bo) {
 					for _, s := range []ssa.Value{bo.X, bo.Y} {
 						if v, ok := cfgx.ConstString(s); ok && v == it.val && strings.Contains(s.Type().String(), apiV1) {
-							t, _ := cfgx.CondEdges(bo)
+							t, _ := eqEdges(bo)
 							caseTrue = append(caseTrue, t...)
 						}
 					}
